@@ -151,4 +151,30 @@ def check(ctx: Ctx) -> str:
     ctx.check(tab.get("defined") == "test_defined" and tab.get("undefined") == "test_undefined", "TESTS registration", "tests:TESTS", "defined/undefined entries", "TESTS maps defined/undefined to the wrong functions", "src/jinja2/tests.py")
     ft = repo.const_map("filters:FILTERS")
     ctx.check(ft.get("default") == "do_default" and ft.get("d") == "do_default", "FILTERS registration", "filters:FILTERS", "default entries", "FILTERS maps default/d to the wrong function", "src/jinja2/filters.py")
+
+    ctx.rule("R4", "the error raised for an operation on an undefined value cannot be caught by the library's own data-access handlers: UndefinedError's builtin ancestors are Exception / BaseException only (getitem / getattr and the filters catch TypeError, LookupError, AttributeError, ValueError around data access)")
+    from ..cfg import EXC_PARENTS as BUILTIN_PARENTS
+
+    def ancestors(cname: str, seen: set[str]) -> set[str]:
+        out: set[str] = set()
+        ci = next((c for c in repo.classes("exceptions") if c.name == cname), None)
+        if ci is None:
+            out.add(cname)
+            p = BUILTIN_PARENTS.get(cname)
+            while p:
+                out.add(p)
+                p = BUILTIN_PARENTS.get(p)
+            return out
+        for b in ci.node.bases:
+            bn = ast.unparse(b).split(".")[-1]
+            if bn not in seen:
+                seen.add(bn)
+                out |= ancestors(bn, seen)
+        return out
+
+    for exc in ("UndefinedError", "SecurityError", "TemplateRuntimeError"):
+        anc = ancestors(exc, set())
+        catchable = sorted(anc & {"LookupError", "KeyError", "IndexError", "TypeError", "AttributeError", "ValueError", "ArithmeticError", "StopIteration", "RuntimeError", "OSError"})
+        ctx.check(not catchable, f"hierarchy:{exc}", f"exceptions:{exc}", f"{exc} is also a {catchable}",
+                  f"{exc} inherits from {catchable}: Environment.getitem / getattr (and the sandbox overrides, filters such as attr / map) catch these around data access, so `{{{{ missing[0] }}}}` - Undefined.__getitem__ raising {exc} - is swallowed and yields a fresh undefined instead of failing", "src/jinja2/exceptions.py", detail={"builtin_ancestors": sorted(anc)})
     return __doc__ or ""
